@@ -14,114 +14,238 @@ from ..engine import pattern as P
 from ..engine.facts import dotted, const, src, walk_func, enclosing_stmt
 from .common import calls, pn, access_paths
 from . import c10  # xml-table (what the `x` flag denotes) is registered for C02 there
+from . import c03  # printer-indents-first-line-only (multi-line expressions keep their text) is registered for C02 there
 
 
-def _component(e):
-    t = src(e)
-    if t == "args":
+SHARED = {"self.compiler.default_filters": "D", "self.compiler.pagetag.filter_args.args": "P"}
+
+
+class _Val:
+    """abstract list value: components front to back (L = the filters given, P = page filters, D = default filters,
+    X~ = a derived form of X) and whether it *is* one of the shared configuration lists (not a copy)"""
+
+    def __init__(self, comps, shared=None):
+        self.comps, self.shared = tuple(comps), shared
+
+    def __repr__(self):
+        return "+".join(self.comps) or "[]"
+
+
+class _Compose:
+    def __init__(self, fn, argsp, isexp):
+        self.fn, self.argsp, self.isexp = fn, argsp, isexp
+        self.paths = []       # (final comps of args, facts dict)
+        self.problems = []    # (node, text)
+
+    # -- expressions ---------------------------------------------------
+    def val(self, e, env):
+        t = src(e)
+        if isinstance(e, ast.Name):
+            return env.get(e.id)
+        if t in SHARED:
+            return _Val([SHARED[t]], shared=SHARED[t])
+        if isinstance(e, (ast.List, ast.Tuple)) and not e.elts:
+            return _Val([])
+        if isinstance(e, ast.BinOp) and isinstance(e.op, ast.Add):
+            l, r = self.val(e.left, env), self.val(e.right, env)
+            if l is not None and r is not None:
+                return _Val(l.comps + r.comps)
+            return None
+        if isinstance(e, ast.Call) and dotted(e.func) in ("list", "tuple") and len(e.args) == 1:
+            v = self.val(e.args[0], env)
+            return _Val(v.comps) if v is not None else None
+        if isinstance(e, ast.Call) and isinstance(e.func, ast.Attribute) and e.func.attr == "copy" and not e.args:
+            v = self.val(e.func.value, env)
+            return _Val(v.comps) if v is not None else None
+        if isinstance(e, ast.Subscript) and isinstance(e.slice, ast.Slice) and e.slice.lower is None and e.slice.upper is None and e.slice.step is None:
+            v = self.val(e.value, env)
+            return _Val(v.comps) if v is not None else None
+        if isinstance(e, ast.IfExp):
+            return None
+        for k, c in SHARED.items():
+            if k.split(".")[-1] in t or (c == "P" and "filter_args" in t):
+                return _Val([c + "~"])  # built from the configured list but not the list itself (filtered, reordered, de-duplicated)
         return None
-    if t == "self.compiler.pagetag.filter_args.args":
-        return "P"
-    if t == "self.compiler.default_filters":
-        return "D"
-    if "pagetag.filter_args.args" in t:
-        return "P~"  # a derived (filtered / reordered) form of the page filters
-    if "default_filters" in t:
-        return "D~"
-    return "?" + t
 
+    # -- conditions ----------------------------------------------------
+    def atom(self, test, env):
+        """(fact name, value-if-test-true) or None for a condition the analysis does not interpret"""
+        t = src(test)
+        if isinstance(test, ast.UnaryOp) and isinstance(test.op, ast.Not):
+            a = self.atom(test.operand, env)
+            return (a[0], not a[1], a[2]) if a else None
+        if isinstance(test, ast.Compare) and len(test.ops) == 1 and const(test.left) == "n" and isinstance(test.ops[0], (ast.In, ast.NotIn)):
+            v = self.val(test.comparators[0], env)
+            if v is not None:
+                return ("n-in:" + "+".join(v.comps), isinstance(test.ops[0], ast.In), v.comps)
+            return None
+        if t == self.isexp:
+            return ("is_expression", True, None)
+        if t in ("self.compiler.pagetag", "self.compiler.pagetag is not None"):
+            return ("page", True, None)
+        if t == "self.compiler.pagetag is None":
+            return ("page", False, None)
+        if t in ("self.compiler.default_filters", "len(self.compiler.default_filters)"):
+            return ("default", True, None)
+        if isinstance(test, ast.Name) and env.get(test.id) is not None:
+            v = env[test.id]
+            if v.comps == ("P",):
+                return ("p-nonempty", True, None)
+            if v.comps == ():
+                return ("const", False, None)
+        return None
 
-def _paths(stmts, state, conds, out):
-    """enumerate paths of the prologue of create_filter_callable.
-    state: list of components of `args` (front to back); conds: list of (test text, bool)"""
-    if not stmts:
-        out.append((list(state), list(conds)))
-        return
-    s, rest = stmts[0], stmts[1:]
-    if isinstance(s, ast.If):
-        # test may mention `args`: record the value of args at the test
-        t = src(s.test)
-        snap = "+".join(state)
-        _paths(list(s.body) + rest, list(state), conds + [(t, True, snap)], out)
-        _paths(list(s.orelse) + rest, list(state), conds + [(t, False, snap)], out)
-        return
-    if isinstance(s, ast.Assign) and src(s.targets[0]) == "args":
-        v = s.value
-        if isinstance(v, ast.BinOp) and isinstance(v.op, ast.Add):
-            l, r = _component(v.left), _component(v.right)
-            if l is not None and r is None:
-                _paths(rest, [l] + state, conds, out)
+    def assume(self, facts, name, value, comps):
+        """record a fact; False when it contradicts what the path already knows"""
+        f = dict(facts)
+        if name == "const":
+            return f if value else None
+        if name.startswith("n-in:"):
+            if not comps:
+                return f if value is False else None  # nothing is in the empty list
+            know = {c: f.get("n-in-" + c) for c in comps}
+            if value:
+                # n in X1+..+Xk: at least one; if all others known False, the remaining one is True
+                if all(v is False for v in know.values()):
+                    return None
+                unknown = [c for c, v in know.items() if v is None]
+                if len(unknown) == 1 and not any(v for v in know.values()):
+                    f["n-in-" + unknown[0]] = True
+            else:
+                if any(v is True for v in know.values()):
+                    return None
+                for c in comps:
+                    f["n-in-" + c] = False
+            return f
+        if name in f and f[name] != value:
+            return None
+        f[name] = value
+        return f
+
+    # -- statements ----------------------------------------------------
+    def run(self, stmts, env, facts):
+        if not stmts:
+            self.paths.append((env.get(self.argsp), facts))
+            return
+        s, rest = stmts[0], list(stmts[1:])
+        if isinstance(s, ast.If):
+            test = s.test
+            if isinstance(test, ast.BoolOp) and isinstance(test.op, ast.And):
+                # if A and B: X else: Y  ==  if A: (if B: X else: Y) else: Y
+                inner = ast.If(test=test.values[1] if len(test.values) == 2 else ast.BoolOp(op=ast.And(), values=test.values[1:]), body=s.body, orelse=s.orelse)
+                outer = ast.If(test=test.values[0], body=[inner], orelse=s.orelse)
+                for n_ in (inner, outer):
+                    ast.copy_location(n_, s)
+                    if isinstance(n_.test, ast.BoolOp):
+                        ast.copy_location(n_.test, test)
+                return self.run([outer] + rest, env, facts)
+            a = self.atom(test, env)
+            if a is None:
+                self.run(list(s.body) + rest, dict(env), facts)
+                self.run(list(s.orelse) + rest, dict(env), facts)
                 return
-            if l is None and r is not None:
-                _paths(rest, state + [r], conds, out)
-                return
-        raise AnalysisError("create_filter_callable: assignment `%s` not understood" % src(s))
-    if isinstance(s, (ast.FunctionDef, ast.Expr, ast.Pass)):
-        _paths(rest, state, conds, out)
-        return
-    if isinstance(s, ast.For):
-        out.append((list(state), list(conds)))
-        return
-    raise AnalysisError("create_filter_callable: statement %s not understood" % type(s).__name__)
+            for val, body in ((True, s.body), (False, s.orelse)):
+                f = self.assume(facts, a[0], a[1] if val else not a[1], a[2])
+                if f is not None:
+                    self.run(list(body) + rest, dict(env), f)
+            return
+        if isinstance(s, ast.Assign) and len(s.targets) == 1 and isinstance(s.targets[0], ast.Name):
+            v = self.val(s.value, env)
+            if v is None and (s.targets[0].id == self.argsp or any(isinstance(x, ast.Name) and x.id in env for x in ast.walk(s.value))):
+                raise AnalysisError("create_filter_callable: assignment `%s` not understood" % src(s))
+            env = dict(env)
+            if v is not None:
+                env[s.targets[0].id] = v
+            return self.run(rest, env, facts)
+        mut = None
+        if isinstance(s, ast.AugAssign) and isinstance(s.op, ast.Add) and isinstance(s.target, ast.Name) and s.target.id in env:
+            mut = (s.target.id, s.value, "back")
+        elif isinstance(s, ast.Expr) and isinstance(s.value, ast.Call) and isinstance(s.value.func, ast.Attribute) and isinstance(s.value.func.value, ast.Name) and s.value.func.value.id in env and s.value.func.attr in ("extend", "insert", "append"):
+            c = s.value
+            if c.func.attr == "extend":
+                mut = (c.func.value.id, c.args[0], "back")
+            else:
+                raise AnalysisError("create_filter_callable: `%s` not understood" % src(s))
+        if mut:
+            name, ve, where = mut
+            cur, add = env[name], self.val(ve, env)
+            if add is None:
+                raise AnalysisError("create_filter_callable: `%s` not understood" % src(s))
+            if cur.shared:
+                self.problems.append((s, "`%s` extends the configured %s filter list itself (the template's / page tag's own list object, `%s` is no copy): every later expression, and every other template sharing that list, gets the added filters once more" % (src(s), "default" if cur.shared == "D" else "page", name)))
+            env = dict(env)
+            env[name] = _Val(cur.comps + add.comps, shared=cur.shared)
+            # aliases of the same shared object see the mutation too
+            return self.run(rest, env, facts)
+        if isinstance(s, (ast.FunctionDef, ast.Expr, ast.Pass, ast.Assert)):
+            return self.run(rest, env, facts)
+        if isinstance(s, ast.Assign):
+            return self.run(rest, env, facts)
+        if isinstance(s, ast.For):
+            self.paths.append((env.get(self.argsp), facts))
+            return
+        raise AnalysisError("create_filter_callable: statement %s not understood" % type(s).__name__)
 
 
 @rule("C02.compose", min_instances=5)
 def compose(ctx):
-    """create_filter_callable: default filters D and page filters P are prepended (D + P + L) only for expressions; `n` among the local filters disables both, `n` in the page filters disables D"""
+    """create_filter_callable: default filters D and page filters P are prepended (D + P + L) only for expressions; `n` among the local filters disables both, `n` in the page filters disables D; the configured lists themselves are never extended"""
     db = ctx.db
     fn = db.func("codegen._GenerateRenderMethod.create_filter_callable")
-    body = [s for s in fn.body if not (isinstance(s, ast.Expr) and isinstance(s.value, ast.Constant))]
-    paths = []
-    _paths(body, ["L"], [], paths)
-    ctx.note("paths", [("+".join(st), [(t, v) for t, v, _ in cs]) for st, cs in paths])
+    argsp, isexp = pn(fn, 1), pn(fn, 3)
+    cz = _Compose(fn, argsp, isexp)
+    cz.run(list(fn.body), {argsp: _Val(["L"])}, {})
     where = db.where(fn)
-
-    def atom(cs, frag, idx=0):
-        hits = [(v, snap) for t, v, snap in cs if frag in t]
-        return hits[idx] if len(hits) > idx else None
+    ctx.note("paths", [(repr(v), sorted(f.items())) for v, f in cz.paths])
+    for node, text in cz.problems[:1]:
+        ctx.violation("shared-list-extended", db.where(node), text)
+    if not cz.problems:
+        ctx.ok("shared-list-extended", where, "no in-place extension of a configured filter list")
     seen = set()
-    for st, cs in paths:
-        final = "+".join(st)
-        n_first = atom(cs, "'n' not in args", 0)
-        is_expr = atom(cs, "is_expression")
-        page = atom(cs, "self.compiler.pagetag")
-        dflt = atom(cs, "self.compiler.default_filters")
-        key = "path[%s]" % ",".join("%s=%d" % (t.replace("self.compiler.", "")[:28], v) for t, v, _ in cs)
+    finals = set()
+    for v, f in cz.paths:
+        final = repr(v)
+        key = "path[%s]" % ",".join("%s=%d" % (k, val) for k, val in sorted(f.items()))
         if key in seen:
             continue
         seen.add(key)
-        ok = True
+        nL, isx, page, dflt, nP = f.get("n-in-L"), f.get("is_expression"), f.get("page"), f.get("default"), f.get("n-in-P")
+        if f.get("p-nonempty") is False and page is None:
+            page = None
+        want = None
         why = ""
-        if n_first is None:
-            ok, why = False, "no outer `\"n\" not in args` test: n among the expression's filters does not disable defaults"
-        elif not n_first[0]:
-            ok, why = final == "L", "with n among the local filters the list must stay L"
-        elif is_expr is None or not is_expr[0]:
-            ok, why = final == "L", "nothing may be added for non-expression filters (def/block/<%%text>/buffer_filters)"
+        if nL is True:
+            want, why = "L", "with n among the local filters the list must stay L"
+        elif isx is False:
+            want, why = "L", "nothing may be added for non-expression filters (def/block/<%text>/buffer_filters)"
+        elif nL is False and isx is True and page is not None and dflt is not None:
+            comps = ["L"]
+            if page:
+                comps = ["P"] + comps
+            if dflt and not (page and nP is True):
+                if page and nP is None:
+                    ctx.violation(key, where, "default filters are added to %s without testing for n in the page filters" % final)
+                    finals.add(final)
+                    continue
+                comps = ["D"] + comps
+            want, why = "+".join(comps), "expected %s" % "+".join(comps)
+        elif nL is None:
+            ctx.violation(key, where, "a path builds the filter list %s without testing for `n` among the expression's own filters: n does not disable the defaults" % final)
+            finals.add(final)
+            continue
         else:
-            want = ["L"]
-            if page is not None and page[0]:
-                want = ["P"] + want
-            # the combined test `default_filters and "n" not in args` shows up as one atom
-            d_on = None
-            for t, v, snap in cs:
-                if "default_filters" in t:
-                    d_on = (v, snap, t)
-            if d_on is not None and d_on[0]:
-                want = ["D"] + want
-                # the n test guarding D must look at P+L when a page tag is present
-                if "'n' not in args" not in d_on[2]:
-                    ok, why = False, "default filters are added without testing for n in the page filters"
-                elif page is not None and page[0] and d_on[1] != "P+L":
-                    ok, why = False, "the n test guarding the default filters looks at %s instead of page+local filters" % d_on[1]
-            if ok:
-                ok, why = final == "+".join(want), "expected %s" % "+".join(want)
-        ctx.check(ok, key, where, "final filter list is %s: %s" % (final, why), "final list %s" % final)
-    for st, cs in paths:
-        for comp in st:
+            # facts undetermined on this path: it must not add anything the known facts forbid
+            if isx is None and final != "L":
+                ctx.violation(key, where, "filters are added (%s) on a path that does not depend on is_expression: def/block/<%%text> filters and buffer_filters get the expression defaults" % final)
+                finals.add(final)
+                continue
+            continue
+        finals.add(final)
+        ctx.check(final == want, key, where, "final filter list is %s: %s" % (final, why), "final list %s" % final)
+    for v, f in cz.paths:
+        for comp in (v.comps if v is not None else ()):
             if comp.endswith("~"):
                 ctx.violation("component:" + comp, where, "the %s filters are not prepended as configured but in a derived form (some are dropped, reordered or de-duplicated): the pipeline is no longer f2(f1(P(D(value))))" % ("default" if comp.startswith("D") else "page"))
-    finals = {"+".join(st) for st, cs in paths}
     ctx.check({"L", "P+L", "D+P+L", "D+L"} <= finals, "all-forms", where, "reachable filter lists %s lack one of L, P+L, D+L, D+P+L" % sorted(finals), sorted(finals))
 
 
